@@ -479,6 +479,13 @@ class ShapeJsonImplyH(_Shape):
             for prefix in ("", "VAR"):
                 for sg in ((1, 1), (-1, 1)):
                     out.append({"kind": kind, "prefix": prefix, "signs": {"C": sg[0], "D": sg[1]}})
+        # the condition is an ANONYMOUS node over ONE leaf (what Imply('x', ...) wraps a plain variable into -- but with any
+        # threshold and either sign): a writer that "unwraps" it must not lose the threshold or the sign
+        # (its threshold is enumerated, not symbolic: a generated id over a symbolic threshold cannot be ordered against the
+        # explicit ids, which the constructor does when it sorts the children)
+        for sg in (1, -1):
+            for vc in (-1, 0, 1, 2):
+                out.append({"kind": "imply-anon1", "prefix": "", "signs": {"C": sg, "D": 1}, "vC": vc})
         return out
 
     def setup(self, c, case):
@@ -499,9 +506,15 @@ class ShapeJsonImplyH(_Shape):
             n.__dict__.update(generated_id=False, sign=sign, value=vals[name], propositions=sorted(kids, key=lambda x: x.id),
                               variable=mk_variable(repo, pre + name, 0, 1))
             return n
-        C = node("C", [lv["a"], lv["b"]], case["signs"]["C"])
+        if case["kind"] == "imply-anon1":
+            C = repo.plog.AtLeast(case["vC"], [lv["a"]], sign=case["signs"]["C"])          # real constructor, generated id
+        else:
+            C = node("C", [lv["a"], lv["b"]], case["signs"]["C"])
         D = node("D", [lv["b"], lv["d"]], case["signs"]["D"])
-        if case["kind"] == "imply":
+        if case["kind"] == "imply-anon1":
+            top = repo.plog.Imply(C, D, variable=pre + "T")
+            ids = [pre + "T", pre + "D"]
+        elif case["kind"] == "imply":
             top = repo.plog.Imply(C, D, variable=pre + "T")
             ids = [pre + "T", pre + "C", pre + "D"]
         else:
@@ -559,13 +572,16 @@ class ShapeJsonImplyH(_Shape):
 
         def build():
             lv = {l: puan.variable(l, (w["lo"][l], w["hi"][l])) for l in ("a", "b", "d")}
-            C = pg.AtLeast(w["values"]["C"], [lv["a"], lv["b"]], variable=pre + "C", sign=case["signs"]["C"])
+            if case["kind"] == "imply-anon1":
+                C = pg.AtLeast(case["vC"], [lv["a"]], sign=case["signs"]["C"])
+            else:
+                C = pg.AtLeast(w["values"]["C"], [lv["a"], lv["b"]], variable=pre + "C", sign=case["signs"]["C"])
             D = pg.AtLeast(w["values"]["D"], [lv["b"], lv["d"]], variable=pre + "D", sign=case["signs"]["D"])
-            return pg.Imply(C, D, variable=pre + "T") if case["kind"] == "imply" else pg.All(pg.Not(C), D, variable=pre + "T")
+            return pg.Imply(C, D, variable=pre + "T") if case["kind"].startswith("imply") else pg.All(pg.Not(C), D, variable=pre + "T")
         top = build()
         js = json.loads(json.dumps(top.to_json()))
         back = pg.from_json(js)
-        ids = [pre + "T", pre + "C", pre + "D"]
+        ids = [pre + "T", pre + "D"] if case["kind"] == "imply-anon1" else [pre + "T", pre + "C", pre + "D"]
         violated, detail = [], {"model": top.to_text(), "json": js}
         if not all(i in self._ids(js) for i in ids):
             violated.append("shape.json.imply.ids-written")
